@@ -632,6 +632,16 @@ def m9(prog: Program, chk: Check) -> None:
                                                "bath_dynamics"}, floor=1)
 
 
+def m10(prog: Program, chk: Check) -> None:
+    chk.rule("M10", "the final state contains every operation of the last step that acts before "
+             "it is measured: in each stepper the pre-measurement control of the last step lies "
+             "on every path to the final record - the loop leaves through a break placed after "
+             "that control in its last iteration, and cannot run out of steps between the last "
+             "propagation and the final record (event classification of C18 O2)", floor=6)
+    from rules import c18
+    c18.final_step_controls(prog, chk, "M10")
+
+
 def run(prog: Program, chk: Check) -> None:
     chk.explanation = (
         "Claims C03 IN PART: structural necessary conditions of 'contracting any process tensor "
@@ -659,3 +669,4 @@ def run(prog: Program, chk: Check) -> None:
     chk.call(m7, prog, chk)
     chk.call(m8, prog, chk)
     chk.call(m9, prog, chk)
+    chk.call(m10, prog, chk)
